@@ -312,14 +312,14 @@ inline Op opReload() {
     Op o; o.name = "reload"; o.cls = "reload";
     o.enabled = [](const World&, const WSnap& s) { return uniformFrames(s.o); };
     o.apply = [](World& w, const WSnap&, CallInfo& ci) {
-        ci.kind = K_RELOAD; std::string p = w.path("reload.c3d"); w.c->write(p); std::unique_ptr<C3D> n(new C3D(p)); w.c = std::move(n);
+        ci.kind = K_RELOAD; std::string p = w.path("reload.c3d"); freshDestination(p); w.c->write(p); std::unique_ptr<C3D> n(new C3D(p)); w.c = std::move(n);
     };
     return o;
 }
 inline Op opSave() {
     Op o; o.name = "save"; o.cls = "save";
     o.enabled = [](const World&, const WSnap&) { return true; };
-    o.apply = [](World& w, const WSnap&, CallInfo& ci) { ci.kind = K_SAVE; w.c->write(w.path("save.c3d")); };
+    o.apply = [](World& w, const WSnap&, CallInfo& ci) { ci.kind = K_SAVE; freshDestination(w.path("save.c3d")); w.c->write(w.path("save.c3d")); };
     return o;
 }
 inline Op opPrint() {
